@@ -652,6 +652,19 @@ def oracle(inp):
     vb = ei.evaluate_at_point_list(xs, batch_size=b)
     if numpy.abs(vb - v).max() > tol_b:
       return fail("EI depends on the evaluation batch size", vb.tolist(), v.tolist())
+  # the documented incumbent after the model's data was replaced (same points, values in reverse order: the best observation sits at
+  # another index): a new acquisition function on the updated model measures improvement against the NEW best observed value
+  if len(gi["values"]) >= 2 and inp.get("update_history", True):
+    from libsigopt.compute.misc.data_containers import HistoricalData
+    gpu = gpgen.make_gp(gi)
+    _ = ExpectedImprovement(gpu).best_value, gpu.best_observed_value            # the accessors have been read once
+    hd2 = HistoricalData(gpu.dim)
+    newv = numpy.array(list(reversed(gi["values"])), dtype=float)
+    hd2.append_historical_data(numpy.array(gpu.points_sampled, dtype=float), newv, numpy.array(gpu.points_sampled_noise_variance, dtype=float))
+    gpu.update_historical_data(hd2)
+    got_best = float(ExpectedImprovement(gpu).best_value)
+    if got_best != float(newv.min()):
+      return fail("EI incumbent after the data were replaced is not the best observed value of the new data", got_best, float(newv.min()))
   # evaluation points on the integer lattice, handed over as an integer-typed array (grid / int parameters): the same values as for the
   # float-typed array of the same points
   xi = numpy.rint(xs).astype(int)
